@@ -1,32 +1,16 @@
-"""Per-property configuration of the check runner: which suite produces the correspondence trace,
-which Lean modules hold the obligations, which theorems are the obligations, which components of a
-model/implementation disagreement concern the property."""
+"""Per-property configuration of the check runner, aggregated from lib/propdefs/*.py.
+Each file there defines (any of) SUITES, PROPS, TEXT (manifest texts), NOT_YET (reasons for unclaimed properties)."""
+import glob, importlib.util, os
 
 ALLOWED_AXIOMS = {"propext", "Classical.choice", "Quot.sound"}
+SUITES, PROPS, TEXT, NOT_YET = {}, {}, {}, {}
 
-# suites: name -> (quick ops, thorough ops per seed)
-SUITES = {
-    "coinswap": dict(quick_ops=4000, thorough_ops=40000, driver="coinswap"),
-}
-
-PROPS = {
-    "C01": dict(
-        suite="coinswap",
-        modules=["CantoVerif.Props.C01"],
-        theorems=[
-            "CV.Coinswap.k_step", "CV.Coinswap.k_step_monitor", "CV.Coinswap.k_history", "CV.Coinswap.wf_step",
-            "CV.Coinswap.k_swap", "CV.Coinswap.k_add", "CV.Coinswap.k_remove", "CV.Coinswap.k_send",
-            "CV.Coinswap.trade_k", "CV.Coinswap.remove_le_prorata", "CV.Coinswap.add_then_remove_le",
-            "CV.Coinswap.roundtrip_le", "CV.Arith.sell_k", "CV.Arith.buy_k", "CV.Arith.add_k", "CV.Arith.remove_k",
-            "CV.Arith.k_trans", "CV.Bank.applyAll_flow",
-        ],
-        comps={"outcome", "bank", "pools"},
-        ops={"swap", "add", "remove", "send"},
-    ),
-    "C02": dict(suite="coinswap", modules=["CantoVerif.Props.C01"], theorems=["CV.within_conserves", "CV.Bank.applyAll_flow"],
-                comps={"outcome", "bank", "pools"}),
-    "C08": dict(suite="coinswap", modules=["CantoVerif.Props.C01"], theorems=["CV.Coinswap.remove_ok"],
-                comps={"outcome", "bank", "resp"}),
-    "C09": dict(suite="coinswap", modules=["CantoVerif.Props.C01"], theorems=["CV.Coinswap.swap_ok"],
-                comps={"outcome", "bank"}),
-}
+_here = os.path.dirname(os.path.abspath(__file__))
+for _f in sorted(glob.glob(os.path.join(_here, "propdefs", "*.py"))):
+    _spec = importlib.util.spec_from_file_location("propdefs_" + os.path.basename(_f)[:-3], _f)
+    _m = importlib.util.module_from_spec(_spec)
+    _spec.loader.exec_module(_m)
+    SUITES.update(getattr(_m, "SUITES", {}))
+    PROPS.update(getattr(_m, "PROPS", {}))
+    TEXT.update(getattr(_m, "TEXT", {}))
+    NOT_YET.update(getattr(_m, "NOT_YET", {}))
